@@ -242,7 +242,25 @@ def generic_programs():
         ("static:shared", "K a = new K(); K b = new K(); echo(a.id); echo(b.id); echo(K.n); echo(K.total());", ["1", "2", "2", "2"]),
         ("static:subclass", "K a = new K(); K2 b = new K2(); K2 c = new K2(); echo(K.n); echo(K2.n2); echo(b.id); echo(c.id);", ["3", "102", "2", "3"]),
     ]
+    # a specialisation first created from inside another generic context whose own parameter of the same name is bound differently
+    # (generic extends generic with re-ordered parameters; a generic method that builds a generic of a generic), before / after the same
+    # specialisation is created from plain code
+    nest = ("class Cell<T> { public T v; public constructor(T x) -> Cell<T> { this.v = x; } public function get() -> T { return this.v; } public function put(T x) -> void { this.v = x; } }\n"
+            "class Tagged<T, U> extends Cell<U> { public T tag; public constructor(T t, U u) -> Tagged<T, U> { super(u); this.tag = t; } }\n"
+            "class Holder<T> { public constructor() -> Holder<T> { } public function wrap(T x) -> Cell<Cell<T>> { return new Cell<Cell<T>>(new Cell<T>(x)); } }\n")
+    tg = "Tagged<int, string> tg = new Tagged<int, string>(7, \"eight\"); echo(tg.get()); echo(tg.tag); tg.put(\"nine\"); echo(tg.get());"
+    pl = "Cell<string> c = new Cell<string>(\"plain\"); echo(c.get()); c.put(\"again\"); echo(c.get());"
+    hw = "Holder<int> h = new Holder<int>(); Cell<Cell<int>> cc = h.wrap(5); echo(cc.get().get());"
+    pi = "Cell<int> ci = new Cell<int>(6); ci.put(8); echo(ci.get());"
+    cases3 = [
+        ("generic:rebinding:derived-first", tg + " " + pl, ["eight", "7", "nine", "plain", "again"]),
+        ("generic:rebinding:plain-first", pl + " " + tg, ["plain", "again", "eight", "7", "nine"]),
+        ("generic:nested:holder-first", hw + " " + pi, ["5", "8"]),
+        ("generic:nested:plain-first", pi + " " + hw, ["8", "5"]),
+        ("generic:rebinding-and-nested", tg + " " + hw + " " + pl + " " + pi, ["eight", "7", "nine", "5", "plain", "again", "8"]),
+    ]
     progs = [(n, box + "function main() -> void { %s }\n" % b, ("ok", e)) for n, b, e in cases]
+    progs += [(n, nest + "function main() -> void { %s }\n" % b, ("ok", e)) for n, b, e in cases3]
     progs += [(n, stat + "function main() -> void { %s }\n" % b, ("ok", e)) for n, b, e in cases2]
     return progs
 
